@@ -95,6 +95,24 @@ impl<K, V> HashMap<K, V> {
         }
     }
 
+    pub fn retain<F: FnMut(&K, &mut V) -> bool>(&mut self, mut keep: F) {
+        for i in 0..CAP {
+            let drop_it = match &mut self.slots[i] {
+                Some((k, v)) => !keep(k, v),
+                None => false,
+            };
+            if drop_it {
+                self.slots[i] = None;
+            }
+        }
+    }
+
+    pub fn values_mut(&mut self) -> ValuesMut<'_, K, V> {
+        ValuesMut {
+            inner: self.slots.iter_mut(),
+        }
+    }
+
     /// Index of the `n`-th free slot (n counted from 0).
     fn nth_free(&self, n: usize) -> usize {
         let mut seen = 0;
@@ -292,6 +310,24 @@ impl<'a, K, V> Iterator for Values<'a, K, V> {
 
     fn next(&mut self) -> Option<Self::Item> {
         self.inner.next().map(|e| e.1)
+    }
+}
+
+pub struct ValuesMut<'a, K, V> {
+    inner: std::slice::IterMut<'a, Option<(K, V)>>,
+}
+
+impl<'a, K, V> Iterator for ValuesMut<'a, K, V> {
+    type Item = &'a mut V;
+
+    fn next(&mut self) -> Option<Self::Item> {
+        loop {
+            match self.inner.next() {
+                Some(Some((_, v))) => return Some(v),
+                Some(None) => continue,
+                None => return None,
+            }
+        }
     }
 }
 
